@@ -258,11 +258,16 @@ def byte_windows(chk, env, kind, K):
             T, w = table_words(n), hexw(n)
             L = w * T
             positions = sorted({0, L - 1, w - 1, min(w, L - 1), L // 2})
-            plans = [(p_,) for p_ in positions]
+            plans = [(L, (p_,)) for p_ in positions]
             if L >= 2:
-                plans.append((0, L - 1))
-            for pos in plans:
-                key = "%s::from_hex_string n=%d, characters %s symbolic, the others '0'%s" % (K2.adt, n, list(pos), tag)
+                plans.append((L, (0, L - 1)))
+            # wrong lengths (short by one, by less than a word, by a word; long by one; empty): Err for every character
+            for L2 in sorted({L - 1, L + 1, L - w + 1, L - w, 0, 1} - {L}):
+                if L2 >= 0:
+                    plans.append((L2, (0,) if L2 else ()))
+            Lok = L
+            for L, pos in plans:
+                key = "%s::from_hex_string n=%d, %d characters (%d expected), %s symbolic, the others '0'%s" % (K2.adt, n, L, Lok, list(pos), tag)
                 try:
                     names, byts = [], []
                     for p_ in range(L):
@@ -304,10 +309,10 @@ def byte_windows(chk, env, kind, K):
                         if o.kind != "return":
                             v, d = REFUTED, "from_hex_string(%s%r) panics (%s)" % ("%d, " % n if kind == "dyn" else "", text, o.info.get("msg"))
                             break
-                        hexl = all(c in "0123456789abcdef" for c in text)
-                        hexu = all(c in "0123456789abcdefABCDEF" for c in text)
-                        val = int(text, 16) if hexu else None
-                        fits = val is not None and val < (1 << (1 << n))
+                        hexl = bool(text) and all(c in "0123456789abcdef" for c in text)
+                        hexu = bool(text) and all(c in "0123456789abcdefABCDEF" for c in text)
+                        val = int(text, 16) if (hexu and text) else None
+                        fits = val is not None and val < (1 << (1 << n)) and L == Lok
                         r_ = o.value
                         is_ok = isinstance(r_, Agg) and r_.variant == 0
                         if hexl and fits:
